@@ -70,6 +70,7 @@ type ExStats struct {
 	XChecked, XDisagree, XUnknown int
 	ModelChecks                  int
 	FanoutCapHits                int
+	Fallbacks                    int
 }
 
 type Explorer struct {
@@ -225,6 +226,24 @@ func (ex *Explorer) query(extra *Term) (bool, map[string]uint64) {
 	s.Pop(1)
 	if qlog {
 		fmt.Fprintf(os.Stderr, "Q %s %s\n", r, termStr(extra, 6))
+	}
+	if r == "unknown" && ex.xsolver != nil {
+		// timeout or incompleteness of the first solver: ask the second one
+		ex.St.Fallbacks++
+		x := ex.xsolver
+		x.Push()
+		for _, p := range ex.pc {
+			x.Assert(p)
+		}
+		x.Assert(extra)
+		r = x.Check()
+		if r == "sat" {
+			m = x.ModelOfDeclared()
+		}
+		x.Pop(1)
+		if r == "unsat" {
+			return false, nil
+		}
 	}
 	switch r {
 	case "unknown":
